@@ -699,7 +699,8 @@ func (w *world) record(id int, asIdx int, as []Attr, v float64) { w.recordIn(id,
 
 var collectedMetricRe = regexp.MustCompile(`collected metric "?([^\s"{]+)`)
 
-// rejectedFamilies: the metric names named by the registry's errors (sorted, unique).
+// rejectedFamilies: what the registry's errors talk about, as "<class>:<metric name>" (sorted, unique);
+// class = dup (same name and label values collected twice) | help | type | other.
 func rejectedFamilies(err error) []string {
 	errs := []error{err}
 	if me, ok := err.(prometheus.MultiError); ok {
@@ -711,6 +712,16 @@ func rejectedFamilies(err error) []string {
 		name := "?"
 		if m := collectedMetricRe.FindStringSubmatch(e.Error()); m != nil {
 			name = m[1]
+		}
+		switch txt := e.Error(); {
+		case strings.Contains(txt, "was collected before with the same name and label values"):
+			name = "dup:" + name
+		case strings.Contains(txt, "has help"):
+			name = "help:" + name
+		case strings.Contains(txt, "should be a"):
+			name = "type:" + name
+		default:
+			name = "other:" + name
 		}
 		if !seen[name] {
 			seen[name] = true
